@@ -19,7 +19,50 @@ def _aslr_off():
         return False
 
 
+def _install_clock(epoch):
+    """The simulated wall clock: every way Python code reads the time answers `epoch` (advancing by one
+    millisecond per reading, so that code measuring durations does not divide by zero)."""
+    import time
+    import datetime
+    state = [float(epoch)]
+
+    def now():
+        state[0] += 0.001
+        return state[0]
+    real_localtime, real_gmtime, real_strftime, real_ctime = time.localtime, time.gmtime, time.strftime, time.ctime
+    time.time = now
+    time.time_ns = lambda: int(now() * 1e9)
+    time.localtime = lambda secs=None: real_localtime(now() if secs is None else secs)
+    time.gmtime = lambda secs=None: real_gmtime(now() if secs is None else secs)
+    time.ctime = lambda secs=None: real_ctime(now() if secs is None else secs)
+    time.strftime = lambda fmt, t=None: real_strftime(fmt, real_localtime(now()) if t is None else t)
+
+    class SimDateTime(datetime.datetime):
+        @classmethod
+        def now(cls, tz=None):
+            return cls.fromtimestamp(now(), tz)
+
+        @classmethod
+        def utcnow(cls):
+            return cls.utcfromtimestamp(now())
+
+        @classmethod
+        def today(cls):
+            return cls.fromtimestamp(now())
+
+    class SimDate(datetime.date):
+        @classmethod
+        def today(cls):
+            return cls.fromtimestamp(now())
+    datetime.datetime = SimDateTime
+    datetime.date = SimDate
+
+
 def run_job(job):
+    if job.get('clock') is not None:
+        _install_clock(job['clock'])
+    if job.get('umask') is not None:
+        os.umask(int(job['umask']))
     k = int(job.get('addr_seed', 0))
     # address seed: allocate and partly free a tape-chosen amount of garbage
     junk = []
